@@ -2,7 +2,6 @@
 use std::str::FromStr;
 
 use serde_json::json;
-use zerv::cli::{CheckArgs, run_check_command};
 use zerv::version::SemVer;
 use zvharness::refmodel::semver as rsv;
 use zvharness::*;
@@ -44,8 +43,7 @@ fn judge(x: &str, with_check_cmd: bool, st: &mut Stats) -> Option<(String, Strin
     }
     if with_check_cmd {
         st.inc("clause_check_cmd");
-        let args = CheckArgs { version: x.to_string(), format: Some("semver".to_string()) };
-        let r = match catch(|| run_check_command(args)) {
+        let r = match catch(|| zv::check(x, Some("semver"))) {
             Ok(r) => r,
             Err(p) => return Some((format!("panic@{}", p.file()), format!("check panic {} at {}", p.message, p.location))),
         };
@@ -92,6 +90,8 @@ fn accepted_language(alpha: &[char], max_len: usize) -> Vec<String> {
     go(alpha, max_len, rsv::St::Start, &mut String::new(), &mut out);
     out
 }
+
+static STDIN_LAYER_RUNS: std::sync::atomic::AtomicU64 = std::sync::atomic::AtomicU64::new(0);
 
 fn main() {
     let ctx = Ctx::from_args("C08", "model_checking");
@@ -275,6 +275,32 @@ fn main() {
     let mut sx2 = Stats::default();
     for s in &lang { xc(s, &mut sx2); }
 
+
+    // the string under test is the argument and nothing else: whatever stands on stdin (nothing, a valid version, another
+    // spelling, garbage, the argument itself), with or without `--` before the argument, the verdict and the shown version are
+    // those of the argument - also for arguments that other tools read as "take it from stdin" (`-`, `@-`, `/dev/stdin`)
+    {
+        let bin = proc::zerv_bin();
+        let subjects = ["-", "--", "@-", "/dev/stdin", "stdin", "", " ", "1.2.3", "v1.0.0-rc.1", "1..0", "-1", "-v", "+", "."];
+        let stdins: [Option<&str>; 7] = [None, Some(""), Some("1.2.3\n"), Some("v1.0.0-rc.1"), Some("not a version\n"), Some("-\n"), Some("1.2.3\nv1.0.0-rc.1\n")];
+        let jobs: Vec<(&str, Option<&str>, bool)> = subjects.iter().flat_map(|s| stdins.iter().flat_map(move |i| [(*s, *i, true), (*s, *i, false)])).filter(|(s, _, dd)| *dd || !(s.starts_with('-') && s.len() > 1)).collect();
+        let outs: Vec<((&str, Option<&str>, bool), proc::Out)> = jobs.par_iter().map(|&(s, i, dd)| {
+            let mut args: Vec<String> = vec!["check".into(), "--format".into(), "semver".into()];
+            if dd { args.push("--".into()); }
+            args.push(s.to_string());
+            let o = proc::run(&proc::Run { program: &bin, args, stdin: i.map(|x| x.as_bytes().to_vec()), env: proc::base_env(), cwd: None, timeout: std::time::Duration::from_secs(10) }).unwrap_or_else(|e| machinery_error(&format!("spawn zerv: {e}")));
+            ((s, i, dd), o)
+        }).collect();
+        let mut sx = Stats::default();
+        for ((s, i, dd), o) in outs {
+            if o.timed_out { machinery_error("zerv check timed out"); }
+            sx.inc("check_stdin_state_runs");
+            let inproc = zv::check(s, Some("semver"));
+            let same = match &inproc { Ok(t) => o.status == 0 && o.stdout_str() == format!("{t}\n"), Err(_) => o.status != 0 && o.stdout.is_empty() };
+            if !same { ctx.violation("check_verdict_depends_on_stdin", format!("check {}{s:?} with stdin {i:?}", if dd { "-- " } else { "" }), json!({"input": s, "stdin": i, "kind": "proc-stdin"}), format!("binary exit {} stdout {:?}; the argument alone gives {:?}", o.status, o.stdout_str(), inproc)); }
+        }
+        STDIN_LAYER_RUNS.store(sx.get("check_stdin_state_runs"), std::sync::atomic::Ordering::Relaxed);
+    }
     // process conformance slice: first 200 strings of (b)'s language and 100 rejected edits go through
     // the real binary (`zerv check --format semver -- <s>`)
     let bin = proc::zerv_bin();
@@ -319,6 +345,7 @@ fn main() {
     cov.rule = format!("(a) every string over {sigma9:?} up to length {la} (check command on length <= {lcheck}); (b) every string accepted by the reference DFA up to length {lb} over [0 1 2 a - . + v] and each of its single-symbol insertions/deletions/substitutions over {edit_syms:?} (edits introducing white space also through the check command); (b2) every accepted string up to length 7 padded left/right with 8 white-space strings (ASCII and Unicode), parser and check command; (b2') the same strings with 33 leading and 20 trailing decorations (ref paths, requirement operators, quotes, file and revision suffixes); (b3) ten long-input shapes at lengths 120..65536; (c) boundary numerals x numeric positions. non-trivial = strings the reference accepts plus strings within one edit of an accepted one (evaluations, duplicates between (a) and (b) not removed)");
     cov.exhaustive = true;
     cov.samples = vec![json!("1.0.0-0a.٣"), json!(lang[lang.len() / 2]), json!(lang[lang.len() - 1]), c_samples[0].clone()];
+    cov.set("check_stdin_state_runs", STDIN_LAYER_RUNS.load(std::sync::atomic::Ordering::Relaxed));
     cov.set("clause_counts", all.to_json());
     cov.set("model_xcheck_cases", sx.get("model_xcheck_cases") + sx2.get("model_xcheck_cases"));
     cov.set("process_conformance_cases", sp.get("process_conformance_cases"));
